@@ -212,6 +212,23 @@ def _interpreted(tier):
         c3.comp(1).clamp("v", jnp.ones(4) * -55.0, verbose=False)
         c3.comp(0).stimulate(jnp.ones(4) * 0.05, verbose=False)
         models.append(("two compartments, Leak, voltage clamp on one compartment and a stimulus on the other", c3, 1))
+        # trainable INITIAL STATES: a continued run starts from the states handed in, not from the trained starting values again
+        # (seeded change C07_f re-applies the trainable / data_set state overrides on every continuation)
+        c4 = jx.Cell([jx.Branch(comp, ncomp=2)], parents=[-1])
+        c4.insert(Leak())
+        c4.comp(1).insert(HH())
+        c4.comp(0).record("v", verbose=False)
+        c4.comp(1).record("HH_m", verbose=False)
+        c4.comp(1).record("v", verbose=False)
+        c4.comp(0).stimulate(jnp.ones(4) * 0.1, verbose=False)
+        c4.comp(0).make_trainable("v", verbose=False)
+        c4.comp(1).make_trainable("HH_m", verbose=False)
+        c4.comp(1).make_trainable("HH_gNa", verbose=False)
+        name4 = "two compartments, Leak + partial HH, trainable initial voltage, trainable initial gate and a trainable conductance"
+        models.append((name4, c4, 1))
+        KW = {name4: lambda: dict(params=[{"v": SymArray(np.asarray([Sym(z3.Real("Vtrain"))], dtype=object))}, {"HH_m": SymArray(np.asarray([Sym(z3.Real("Mtrain"))], dtype=object))},
+                                          {"HH_gNa": SymArray(np.asarray([Sym(z3.Real("Gtrain"))], dtype=object))}])}
+        kw_of = lambda nm: (KW[nm]() if nm in KW else {})
         dt = Sym(z3.Real("dt"))
         T = 3 if tier == "quick" else 4
 
@@ -224,13 +241,13 @@ def _interpreted(tier):
         for name, mod, _ in models:
             Ctx.reset()
             s = ISim(mod)
-            full, stf = s.run(ext(mod, 0, T), delta_t=dt, return_states=True)
+            full, stf = s.run(ext(mod, 0, T), delta_t=dt, return_states=True, **kw_of(name))
             out["reached"].update(s.sm.rt.reached)
             for n1 in range(1, T):
                 Ctx.reset()
-                a, st1 = ISim(mod).run(ext(mod, 0, n1), delta_t=dt, return_states=True)
+                a, st1 = ISim(mod).run(ext(mod, 0, n1), delta_t=dt, return_states=True, **kw_of(name))
                 snap1 = {k: list(np.asarray(v, dtype=object).reshape(-1)) for k, v in st1.items()}
-                b, st2 = ISim(mod).run(ext(mod, n1, T), delta_t=dt, all_states=st1, return_states=True)
+                b, st2 = ISim(mod).run(ext(mod, n1, T), delta_t=dt, all_states=st1, return_states=True, **kw_of(name))
                 untouched = sorted(snap1) == sorted(st1) and all(len(snap1[k]) == len(np.asarray(st1[k], dtype=object).reshape(-1)) and
                                                                  all((x is y) or (isinstance(x, Sym) and isinstance(y, Sym) and x.e.eq(y.e)) or (not isinstance(x, Sym) and x == y)
                                                                      for x, y in zip(snap1[k], np.asarray(st1[k], dtype=object).reshape(-1))) for k in snap1)
@@ -239,6 +256,8 @@ def _interpreted(tier):
                 out["results"].append(_res(f"interpreted integrate[{name}]:{n1}+{T - n1} steps in one call == {n1} steps then {T - n1} from the returned states (all recorded terms, the seam column included)", ok, backend="structural"))
                 oks = sorted(stf) == sorted(st2) and all(same(stf[k], st2[k]) for k in stf)
                 out["results"].append(_res(f"interpreted integrate[{name}]:state returned after {n1}+{T - n1} continued steps == state returned by the single call", oks, backend="structural"))
+            if name in KW:
+                continue            # manual stepping and checkpoint layouts are covered by the models without trainables
             # manual stepping
             Ctx.reset()
             s = ISim(mod)
